@@ -21,7 +21,7 @@ from .common import Check, Driver, proof_stage, rng_for
 PROP = "C04"
 MODULE = "PV.Props.C04"
 THEOREMS = [f"PV.Props.C04.{t}" for t in ["colors_proper", "scope_registers_ok", "out_of_registers_is_error", "available_spec"]] + \
-           ["PV.AllocCheck.checkAlloc_sound", "PV.AllocCheck.checkAlloc_trace_eq", "PV.AllocCheck.step_rel", "PV.AllocCheck.writeBack_agree"]
+           ["PV.AllocCheck.checkAlloc_sound", "PV.AllocCheck.checkAlloc_sound_static", "PV.Cfg.step_pc_mem_succs", "PV.AllocCheck.checkAlloc_trace_eq", "PV.AllocCheck.step_rel", "PV.AllocCheck.writeBack_agree"]
 EXTRA_TARGETS = ["PV.Proofs.AllocSound"]
 
 VREG = re.compile(r"^__register\.(\d+)_$")
